@@ -74,6 +74,9 @@ pub struct Case {
     pub mode: Mode,
     pub filter: FilterSel,
     pub steps: Vec<Step>,
+    /// the service gets pre-created sockets (ListenConfig::FromSockets) instead of listen addresses
+    #[serde(default)]
+    pub from_sockets: bool,
     /// companion case on the wire engine (real handlers): checks the post-condition of session
     /// reports that the scripted steps above rely on. When present, `steps` is empty.
     #[serde(default)]
@@ -216,7 +219,10 @@ fn ip_mode(m: Mode) -> IpMode {
 async fn run(case: &Case, rep: &mut CaseReport) -> Option<(String, String)> {
     reset_globals();
     let filt = filter_fn(case.filter);
-    let mut s = Svc::new(SvcConfig { key_idx: 0, mode: case.mode, table_filter: Some(filt), ..Default::default() }).await;
+    let mut s = Svc::new(SvcConfig { key_idx: 0, mode: case.mode, table_filter: Some(filt), from_sockets: case.from_sockets, ..Default::default() }).await;
+    if case.from_sockets {
+        rep.class("service-given-pre-created-sockets");
+    }
     let local_id = s.id;
     let mut allowed: HashSet<ids::Id> = HashSet::new();
     let mut outstanding: Vec<Outstanding> = Vec::new();
@@ -508,8 +514,9 @@ impl Property for C12 {
             prop_oneof![3 => Just(Mode::Ip4), 1 => Just(Mode::Ip6), 2 => Just(Mode::Dual)],
             prop_oneof![Just(FilterSel::AcceptAll), Just(FilterSel::NoMarker), Just(FilterSel::EvenPort)],
             proptest::collection::vec(frag, 1..n),
+            prop_oneof![3 => Just(false), 1 => Just(true)],
         )
-            .prop_map(|(mode, filter, frags)| Case { mode, filter, steps: frags.into_iter().flatten().collect(), wire: None });
+            .prop_map(|(mode, filter, frags, from_sockets)| Case { mode, filter, steps: frags.into_iter().flatten().collect(), from_sockets, wire: None });
         let wn = tier.pick(25usize, 60usize);
         let companion = (wire_gen::config_strategy(false), 0u8..4, any::<u8>(), any::<bool>())
             .prop_flat_map(move |(cfg, kind, who, replay)| {
@@ -525,7 +532,7 @@ impl Property for C12 {
                     cfg.nat_peers.push((who / 16) % n);
                 }
                 cfg.nat_kind = kind;
-                Case { mode: Mode::Ip4, filter: FilterSel::AcceptAll, steps: vec![], wire: Some(WireCase { cfg, ops }) }
+                Case { mode: Mode::Ip4, filter: FilterSel::AcceptAll, steps: vec![], from_sockets: false, wire: Some(WireCase { cfg, ops }) }
             });
         prop_oneof![12 => svc, 1 => companion].boxed()
     }
@@ -543,7 +550,7 @@ impl Property for C12 {
         rep
     }
     fn rule() -> String {
-        "scripts (<=30 quick / <=60 thorough steps) against a real service with a scripted handler in IP mode Ip4 / Ip6 / DualStack and table filter accept-all / reject-marker-field / even-UDP-port-only: incoming handshakes modelled as the handler reports them (who-are-you query answered by the service, record of the session = newer of attached and known, Established if the address of the source's family matches or is absent, UnverifiableEnr otherwise), Established(Outgoing) for outstanding requests with their contact's record, NODES answers to the service's own FINDNODEs (new ids, newer / equal / older versions of stored ids, records failing the filter or not contactable; record requests answered with any version), PONGs announcing higher sequence numbers, request failures, add_enr / remove_node / disconnect_node, lookups; records of 12 pool keys x 4 versions x 7 shapes (v4, v6, both, none, v4-mapped v6, marked, odd port). After every step table_entries() is checked: A1 contactable in the IP mode, passes the filter, not local; A2 only ids with an earlier Established or add_enr; A3 single-stack incoming admission has the source address; A4 a network-learnt change of a stored record has a strictly higher seq. Non-trivial = an Established whose record fails the filter / is not contactable, a discovered newer version of a stored id, or an Established carrying an older record than stored.".into()
+        "scripts (<=30 quick / <=60 thorough steps) against a real service with a scripted handler in IP mode Ip4 / Ip6 / DualStack (configured by listen addresses or, in a quarter of the cases, by pre-created sockets) and table filter accept-all / reject-marker-field / even-UDP-port-only: incoming handshakes modelled as the handler reports them (who-are-you query answered by the service, record of the session = newer of attached and known, Established if the address of the source's family matches or is absent, UnverifiableEnr otherwise), Established(Outgoing) for outstanding requests with their contact's record, NODES answers to the service's own FINDNODEs (new ids, newer / equal / older versions of stored ids, records failing the filter or not contactable; record requests answered with any version), PONGs announcing higher sequence numbers, request failures, add_enr / remove_node / disconnect_node, lookups; records of 12 pool keys x 4 versions x 7 shapes (v4, v6, both, none, v4-mapped v6, marked, odd port). After every step table_entries() is checked: A1 contactable in the IP mode, passes the filter, not local; A2 only ids with an earlier Established or add_enr; A3 single-stack incoming admission has the source address; A4 a network-learnt change of a stored record has a strictly higher seq. Non-trivial = an Established whose record fails the filter / is not contactable, a discovered newer version of a stored id, or an Established carrying an older record than stored.".into()
     }
     fn assumptions() -> Vec<String> {
         vec![
